@@ -5,7 +5,10 @@ C07 model: `Mesh._sel_convert_input`, `Mesh.sel`, `Field.sel`, `Mesh.__getitem__
 index maps), `Field.resample` (nearest source cell through coordinate lookup).
 Code-shaped: same order of checks, same intermediate quantities (cell centres, half
 cells, `floor` / `ceil - 1`), constructor paths (`Region.mk?`, `Mesh.mkCell?`, the
-subregion setter) exactly where the Python goes through constructors.  Core Lean only.
+subregion setter) exactly where the Python goes through constructors; the `Field(...)` call that
+ends every field operation runs the `vdims` and `vdim_mapping` setters (`ctorVdims`, `ctorVmap`,
+`mkFld`); the element type of the result is reduced to numpy dtype kinds (`resultKind`).
+Core Lean only.
 -/
 namespace DFV.C07
 open DFV
